@@ -465,9 +465,9 @@ pub mod vx_attrs {
             // the inherited contract of PartialEq::eq is `obeys_eq_spec() ==> r == self.eq_spec(other)`; spelled out:
             ensures
                 <ContentAttribute<A> as PartialEqSpec>::obeys_eq_spec() ==> r == (sub(self@, other@) && sub(other@, self@)),
-        @closure 1 `|a: &ContentAttribute<A>| -> (found: bool)`
+        @closure 1 `|a: &ContentAttribute<A>| -> (found: bool)` has=`other.0.contains(a)`
             ensures <ContentAttribute<A> as PartialEqSpec>::obeys_eq_spec() ==> found == occurs(other@, *a),
-        @closure 2 `|a: &ContentAttribute<A>| -> (found: bool)`
+        @closure 1 `|a: &ContentAttribute<A>| -> (found: bool)` has=`self.0.contains(a)`
             ensures <ContentAttribute<A> as PartialEqSpec>::obeys_eq_spec() ==> found == occurs(self@, *a),
         @*/
     }
